@@ -51,10 +51,12 @@ fn open_in_band_t(side: Side, pattern: u8, seed: u64, subsecond: bool) -> impl F
         } else {
             r.w.next_block(15);
         }
-        if pattern == 1 {
-            // drift inside the band within the block (may be rejected on some paths: fine)
+        if pattern == 1 || pattern == 3 {
+            // drift inside the band within the block (may be rejected on some paths: fine);
+            // pattern 3: the drift goes AGAINST the opener, whose trade then crosses the reference price
             let md = amount("drift", d, false, 5);
-            r.step(Op::Open { who: EVE, side: side.clone(), margin: md, lev: Uint128::new(d), limit: Uint128::zero(), funds: None });
+            let ds = if pattern == 1 { side.clone() } else { opp(&side) };
+            r.step(Op::Open { who: EVE, side: ds, margin: md, lev: Uint128::new(d), limit: Uint128::zero(), funds: None });
         }
         symrt::set_full(true);
         let b = band(last, f, d);
@@ -203,7 +205,7 @@ pub fn scenarios(seed: u64) -> Vec<Scenario> {
     let mut v = vec![];
     let d1 = "fluctuation limit symbolic in (0,1], trade size symbolic; band computed by the harness from the previous block's final price";
     for (side, sn) in [(Side::Buy, "long"), (Side::Sell, "short")] {
-        for (p, pn) in [(0u8, "first"), (1, "afterdrift"), (2, "opposite")] {
+        for (p, pn) in [(0u8, "first"), (1, "afterdrift"), (2, "opposite"), (3, "after-opposite-drift")] {
             let tier = if p == 1 { Tier::Thorough } else { Tier::Quick };
             v.push(sc("C15", tier, &format!("c15.open.{}.{}", pn, sn), d1, 500, 150, open_in_band(side.clone(), p, seed)));
         }
